@@ -93,6 +93,7 @@ pub fn campaign(target: &str, seed: u64, runs: u64, procs: usize, max_len: usize
             .arg(format!("-artifact_prefix={arts}"))
             .arg("-print_final_stats=1")
             .arg("-timeout=60")
+            .arg("-detect_leaks=0")
             .arg("-rss_limit_mb=4096")
             .arg(format!("-dict={dict}"))
             .stdout(std::process::Stdio::null());
